@@ -178,6 +178,13 @@ def units(run: Run):
         if quick and i % 8 != seed % 8:
             continue
         us.append((4, f"sam01#{i}", g, (10, 100), 0.0))
+    # larger player counts: all K-budget games -min(k,|S|) (exact integers) and their shifts; K within distance 1 of minimal / full + layers
+    for n in ((5, 6) if quick else (5, 6, 7)):
+        for k in range(1, n):
+            g = tuple(float(-min(k, A.popcount(s))) for s in range(1 << n))
+            if quick and n == 6 and k not in (1, 3, 5):
+                continue
+            us.append((n, f"budget{n}-{k}", g if k % 2 else A.shifted(g, tuple([-1, -2, 0, -1, -3, 0, -2][:n])), (0, 1, 2) if n >= 6 else (0, 1, 2, 10), 0.0))
     width = 2 if quick else 8
     for name in gens.SAM_FAMILIES:
         for n in ((3, 4) if quick else (3, 4, 5)):
@@ -200,7 +207,7 @@ def run(run: Run) -> None:
                 "the hidden game, never looser than superadditive_cached, monotone in the repetition count, lower bounds monotone along all nested "
                 "pairs, upper bounds capped by known sub-coalition values and by v(T)-lower(T\\S) of known supersets. "
                 "non-trivial = distinct (game, K) with a non-degenerate interval")
-    run.bounds = {"n": [3, 4] if run.quick else [3, 4, 5], "repetitions_n3": list(R3) + [1000], "repetitions_n4": list(R4_FULL),
+    run.bounds = {"n": [3, 4, 5, 6] if run.quick else [3, 4, 5, 6, 7], "repetitions_n3": list(R3) + [1000], "repetitions_n4": list(R4_FULL),
                   "units": len(us)}
     run.rule += ("; plus, for every 3-player game and a quarter of the 4-player games, one long-lived object first filled with ANOTHER game of the class "
                  "and then re-filled through set_value (no bulk reset) at every K: all clauses again")
